@@ -126,6 +126,14 @@ class DefUse:
                 return n
             visit_ListComp = visit_SetComp = visit_GeneratorExp = visit_DictComp = _comp
 
+            def visit_Subscript(self, n):
+                self.generic_visit(n)
+                if isinstance(n.value, (ast.Tuple, ast.List)) and isinstance(n.slice, ast.Constant) and \
+                        isinstance(n.slice.value, int) and isinstance(n.ctx, ast.Load) and \
+                        0 <= n.slice.value < len(n.value.elts) and not any(isinstance(x, ast.Starred) for x in n.value.elts):
+                    return n.value.elts[n.slice.value]      # (a, b)[0] is a: an unpacked literal tuple
+                return n
+
             def visit_Lambda(self, n):
                 saved = dict(bound)
                 for i, a in enumerate(n.args.args):
